@@ -6,7 +6,8 @@ out = ["# Property-breaking changes written by independent sub-agents", "",
        "Each agent was given only the text of one property and a scratch worktree of /repo. A change is kept only after",
        "`scripts/seeded.py verify` confirmed: it applies and builds, the repository's own tests pass with it, its",
        "demonstration test fails with it and passes without it. `scripts/seeded.py check` applies the patch to /repo, runs the",
-       "check of the property, and undoes the patch.", "",
+       "check of the property, and undoes the patch. Seeds whose lines were touched by a later `fix:` commit were rebased by hand",
+       "(original kept as patch.orig.diff, noted in meta.json) and verified again.", "",
        "| change | breaks | what it needs to manifest | check | verdict | rules that fired |", "|---|---|---|---|---|---|"]
 for d in sorted(glob.glob(os.path.join(ROOT, "seeded", "*", "meta.json"))):
     m = json.load(open(d))
@@ -24,6 +25,10 @@ for d in sorted(glob.glob(os.path.join(ROOT, "seeded", "*", "meta.json"))):
     if not res:
         out.append(f"| {name} | {m['property']} | {needs} | - | not run | |")
     for c, r in sorted(res.items()):
-        out.append(f"| {name} | {m['property']} | {needs} | {c} ({r.get('tier','quick')}) | {r['verdict']} | {', '.join(r['rules'][:4])} |")
+        note = r.get("note", "")
+        rules = ", ".join(r.get("rules", [])[:4])
+        if note:
+            rules = (rules + " — " if rules else "") + note.replace("|", "/")
+        out.append(f"| {name} | {m['property']} | {needs} | {c} ({r.get('tier','quick')}) | {r['verdict']} | {rules} |")
 open(os.path.join(ROOT, "seeded", "RESULTS.md"), "w").write("\n".join(out) + "\n")
 print("seeded/RESULTS.md written")
